@@ -1155,3 +1155,56 @@ def late_binding_closures(f: FuncInfo) -> list[tuple[ast.AST, str, ast.AST]]:
             if captured and escapes(c, loop):
                 out.append((c, captured[0], loop))
     return out
+
+
+# ---------------------------------------------------------------------------------------------- constructor chaining
+def misrouted_super_arguments(prog: Program, base_name: str) -> tuple[int, list[tuple[FuncInfo, ast.Call, str]]]:
+    """For every `super().__init__(...)` / `Base.__init__(self, ...)` call in the hierarchy below `base_name`: a *name* passed positionally that lands on a
+    parameter of a different name, although the callee has a parameter of exactly that name elsewhere, is forwarded to the wrong parameter (the usual
+    way this happens: a parameter inserted in the middle of the base-class signature).  Returns (number of forwarding calls seen, findings)."""
+    base = prog.find_class(base_name)
+    out: list[tuple[FuncInfo, ast.Call, str]] = []
+    n = 0
+    for c in prog.subclasses(base):
+        for m in c.methods.values():
+            for call in calls_in(m.node):
+                fn = call.func
+                if not (isinstance(fn, ast.Attribute) and fn.attr == m.name == "__init__"):
+                    continue
+                tg = [t for t in prog.resolve_call(m, call) if isinstance(t, FuncInfo)]
+                if len(tg) != 1:
+                    continue
+                callee = tg[0]
+                n += 1
+                params = list(callee.bound_params)
+                args = list(call.args)
+                if not (isinstance(fn.value, ast.Call) and dotted(fn.value.func) == "super") and args and isinstance(args[0], ast.Name) and args[0].id == m.self_name:
+                    args = args[1:]     # Base.__init__(self, ...)
+                for i, a in enumerate(args):
+                    if isinstance(a, ast.Starred) or i >= len(params):
+                        break
+                    if isinstance(a, ast.Name) and a.id != params[i] and a.id in params and a.id in m.params:
+                        out.append((m, call, f"`{a.id}` is passed in position {i}, which is the parameter `{params[i]}` of {callee.qualname.split(':')[1]} - not its parameter `{a.id}`"))
+    return n, out
+
+
+# ---------------------------------------------------------------------------------------------- process-wide numeric state
+def unrestored_fp_state(prog: Program) -> tuple[int, list[tuple[FuncInfo, ast.Call, str]]]:
+    """`np.seterr(...)` / `np.seterrcall(...)` change how *every later* numpy operation of the process treats division by zero / invalid values.  A function
+    that changes the mode must put it back on every exit, exceptional ones included: the restoring call sits in a `finally:` (or the code uses the
+    `np.errstate` context manager, which does that itself).  Returns (functions scanned, findings)."""
+    out: list[tuple[FuncInfo, ast.Call, str]] = []
+    n = 0
+    for f in prog.all_functions():
+        if f.module.name.startswith("black_it.plot"):
+            continue
+        n += 1
+        sets = [c for c in calls_in(f.node, scope_only=False) if (prog.qualify(f.module, dotted(c.func) or "") or "") in ("numpy.seterr", "numpy.seterrcall", "numpy.setbufsize")]
+        if not sets:
+            continue
+        in_finally = [c for c in sets if any(isinstance(t, ast.Try) and any(any(x is c for x in ast.walk(b)) for b in t.finalbody) for t in ast.walk(f.node))]
+        changing = [c for c in sets if c not in in_finally]
+        if changing and not in_finally:
+            out.append((f, changing[0], f"`{' '.join(src(changing[0]).split())[:60]}` changes numpy's process-wide floating-point error mode and nothing restores it in a `finally:`: after an "
+                        "exception raised while the mode is changed, every later computation of the process runs under it (use `with np.errstate(...)`)"))
+    return n, out
